@@ -2,7 +2,7 @@
 """Syntactic mutation sweep over one source file of pitt-rnel/pyrtma, judged by whole checks (`./check Cnn`).
 
     tools/mutate_check.py <worktree> <relative file> --checks C09[,C10...] [--only f1,f2] [--skip f1,f2]
-                          [--limit N] [--lines l1,l2] [--out file.jsonl] [--timeout S]
+                          [--limit N] [--lines l1,l2] [--out file.jsonl] [--timeout S] [--dry]
 
 The worktree is a scratch `git worktree` of /repo (never /repo itself).  For every mutant (comparison / boolean operator
 swaps, 0<->1 constants, deleted simple statements, negated conditions, swapped `continue`/`break`, +/- swaps) of the file
@@ -31,6 +31,9 @@ path = os.path.join(wt, rel)
 src = open(path).read()
 tree = ast.parse(src)
 scratch = tempfile.mkdtemp(prefix="mutchk_")
+# the checks of the clone this tool lives in (never another clone: they would share its Lean build directory)
+VERIF = os.environ.get("VERIF_ROOT") or os.path.dirname(os.path.dirname(os.path.abspath(__file__)))
+dry = "--dry" in sys.argv
 
 CMP = {ast.Lt: ast.LtE, ast.LtE: ast.Lt, ast.Gt: ast.GtE, ast.GtE: ast.Gt, ast.Eq: ast.NotEq, ast.NotEq: ast.Eq,
        ast.In: ast.NotIn, ast.NotIn: ast.In, ast.Is: ast.IsNot, ast.IsNot: ast.Is}
@@ -125,7 +128,7 @@ def run_check(prop):
     env = dict(os.environ, PYRTMA_REPO=wt, VERIF_EVIDENCE_DIR=ev, VERIF_REPLAYS_DIR=rp, VERIF_NOCACHE="1")
     t0 = time.time()
     try:
-        p = subprocess.run(["/verif/check", prop], capture_output=True, text=True, env=env, timeout=timeout, cwd="/verif")
+        p = subprocess.run([os.path.join(VERIF, "check"), prop], capture_output=True, text=True, env=env, timeout=timeout, cwd=VERIF)
         rc, text = p.returncode, p.stdout + p.stderr
     except subprocess.TimeoutExpired:
         rc, text = 2, "timeout"
@@ -169,6 +172,10 @@ try:
         except SyntaxError:
             continue
         n += 1
+        if dry:
+            print(json.dumps({"n": n, "kind": kind, "func": f, "line": getattr(node, "lineno", 0), "before": before,
+                              "after": after}), file=out, flush=True)
+            continue
         open(path, "w").write(text)
         try:
             res = {p: run_check(p) for p in checks}
